@@ -347,7 +347,9 @@ string read_all(FILE* f) {
   for (;;) {
     buffers.emplace_back(read_size, 0);
     ssize_t bytes_read = ::fread(buffers.back().data(), 1, read_size, f);
-    if (bytes_read < 0) {
+    // fread never returns a negative count; a stream error shows up as a short
+    // count with the error indicator set, which must not be mistaken for EOF
+    if ((bytes_read < read_size) && ferror(f)) {
       throw io_error(fileno(f));
     }
 
